@@ -333,6 +333,28 @@ fn single_faults(base: &str, other: &str, f: &mut dyn FnMut(String, String)) {
         }
         f(v.concat(), format!("duplicate_line_x9@{}", i));
     }
+    // the move number replaced by boundary numerals (with and without leading zeros)
+    {
+        let head = lines.first().copied().unwrap_or("");
+        let digits_end = head.find(|c: char| !c.is_ascii_digit() && c != ' ').unwrap_or(0);
+        let lead = head.len() - head.trim_start().len();
+        if digits_end > lead {
+            let rest_of_text: String = base[digits_end..].to_string();
+            let prefix = &head[..lead];
+            const NUMS: &[&str] = &[
+                "0", "1", "9", "10", "255", "256", "65535", "65536", "4294967295", "4294967296", "9223372036854775807", "9223372036854775808",
+                "18446744073709551614", "18446744073709551615", "18446744073709551616", "18446744073709551617", "18446744073709551625",
+                "19999999999999999999", "20000000000000000000", "99999999999999999999", "100000000000000000000", "10000000000000000000",
+                "340282366920938463463374607431768211455", "340282366920938463463374607431768211456", "999999999999999999999999999999999999999999",
+                "-1", "+5", "1e3", "0x10", "1_000", "１２", "٣٤",
+            ];
+            for n in NUMS {
+                for zeros in [0usize, 1, 5, 300] {
+                    f(format!("{}{}{}{}", prefix, "0".repeat(zeros), n, rest_of_text), format!("header_number@{}+{}zeros", n, zeros));
+                }
+            }
+        }
+    }
     // amplification: the same line, an empty row, a separator or padding written many times
     // (a retry loop that appends instead of overwriting; log lines or a table around the diagram)
     for i in 0..lines.len() {
